@@ -214,6 +214,9 @@ func CoerceModel(kind string, v Val) (out any, ok bool, known bool) {
 			return time.Unix(v.I, 0), true, true
 		case "b", "l", "m":
 			return nil, false, true
+		case "f":
+			// "unsupported type" (pinned upstream for 1.23): a JSON number is not a point in time, whole or not
+			return nil, false, true
 		}
 		return nil, false, false
 	}
@@ -687,6 +690,16 @@ func (m *Model) posts(n *Node, path string, mn *MNode, issuesBefore int) {
 	must := !mn.Skipped
 	for i, p := range n.PTs {
 		m.Expect = append(m.Expect, MCall{Node: n.ID, Kind: "pt", Idx: i, Must: must})
+		if p.Err == "byhand" {
+			// reports by hand and returns nil: the later transforms of the node still run
+			if must && n.Catch == nil {
+				m.Issues = append(m.Issues, MIssue{Path: path, Code: "pt_byhand", Type: n.ZType(), Node: n.ID, Why: "pt", Idx: i})
+			} else if !must && n.Catch == nil {
+				m.abstain("reporting PostTransform on an absent-optional node")
+				return
+			}
+			continue
+		}
 		if p.Err != "" {
 			if must {
 				code := ""
@@ -694,7 +707,7 @@ func (m *Model) posts(n *Node, path string, mn *MNode, issuesBefore int) {
 					code = "pt_issue"
 				}
 				iss := MIssue{Path: path, Code: code, Type: n.ZType(), Node: n.ID, Why: "pt", Idx: i}
-				if p.Err == "issue" {
+				if p.Err == "issue" || p.Err == "sentinel" {
 					// a returned ZogIssue is "reported as well": as itself or wrapped, the statement does not say
 					iss.Path, iss.Code, iss.Type = "*", "*", "*"
 				}
